@@ -132,6 +132,13 @@ CLAIMED = {
         'label text is tokenised and every number in it is one event judged by TLC with Display!RenderVerdict (sign, exponent, mantissa, half a unit of the displayed digit) '
         'against the exact quantity in the component\'s reference direction, negated iff reverse was requested; phases are compared modulo a full turn.',
    ref='DESIGN.md §6 C14', technique='TLA+ spec + TLC simulation (scenarios, exact solutions) and TLC trace validation of rendered annotations (code->spec)'),
+ 'C20': dict(
+   text='spec/Session.tla is the client-visible machine: a workspace of description objects and shared argument objects, one action per public call of C01-C12/C16/C17, each of '
+        'the shape "workspace unchanged, result = function of the argument VALUES" (action property ArgumentsUnchanged, invariant Repeatable).  TLC -simulate generates call '
+        'histories (length 14; exemption list / value dictionaries / frequency and output lists passed shared, fresh, or left at the mutable default); each history runs in one '
+        'long-lived process, every call is recorded as an event (digests of all live objects before/after, of the result, and of the same call evaluated in a process forked '
+        'from a pristine zygote) and TLC judges the events with Trace_Session (argument_mutated / result_differs_from_isolation / not_repeatable), bit-for-bit.',
+   ref='DESIGN.md §6 C20', technique='TLA+ Session machine + TLC simulation of histories; code->spec trace validation against isolated evaluation'),
 }
 
 PENDING_REASON = 'check not built yet in this round (planned: TLA+ model + conformance replay, see DESIGN.md §6); no claim is made until it exists'
